@@ -278,7 +278,7 @@ pub fn run(thorough: bool) -> i32 {
     r.assumptions = vec!["the contracts' execute entry points are called directly on a cloneable store (ownership messages emit no sub-messages)".into()];
     for which in [Which::Staking, Which::Treasury] {
         let sc = OwnScenario { which };
-        let lim = Limits { max_depth: if thorough { 10 } else { 7 }, max_states: 20_000_000, max_wall_s: if thorough { 3000.0 } else { 200.0 } };
+        let lim = Limits { max_depth: if thorough { 11 } else { 8 }, max_states: 20_000_000, max_wall_s: if thorough { 3000.0 } else { 200.0 } };
         let keys = r.known_keys();
         let rep = explore(&sc, &lim, &keys);
         r.states += rep.states;
@@ -295,6 +295,17 @@ pub fn run(thorough: bool) -> i32 {
             r.samples.push(json!({"scenario": sc.name(), "seed": seed, "path": path}));
         }
         r.runs.push(json!({"scenario": sc.name(), "states": rep.states, "transitions": rep.transitions, "depth_completed": rep.max_depth, "levels": rep.levels, "probes": rep.probes, "tags": rep.tags, "capped": rep.capped}));
+        if rep.found.is_empty() && rep.capped.is_none() {
+            // second engine: stateright BFS must reach exactly the same set of states
+            let x = crate::xcheck::run_stateright(std::sync::Arc::new(OwnScenario { which }), lim.max_depth);
+            let same = x.worlds == rep.states && x.xor == rep.state_acc.0 && x.sum == rep.state_acc.1 && !x.violated;
+            r.runs.push(json!({"crosscheck": "stateright-0.31 bfs", "scenario": sc.name(), "distinct_states": x.worlds, "agrees_with_primary_engine": same}));
+            if !same {
+                r.machinery.push(format!("engine cross-check failed for {}: {} vs {} states", sc.name(), rep.states, x.worlds));
+            } else {
+                r.notes.push(format!("cross-check: stateright BFS reached the same {} distinct states as the primary engine in {}", x.worlds, sc.name()));
+            }
+        }
         let aborted = rep.found.iter().any(|f| !f.known) || rep.capped.is_some();
         for g in ["goal:ownership_changed_hands", "goal:accepted_exactly_at_seven_days", "goal:refused_one_second_early", "goal:former_admin_has_no_rights", "Revoke:ok"] {
             if !aborted && !rep.tags.contains_key(g) {
